@@ -111,7 +111,10 @@ func (g *mutableGen) genOneof(field *protogen.Field) {
 	g.P("switch m := x.", field.Oneof.GoName, ".(type) {")
 	// we check if the type matches the oneof type of the field
 	g.P("case *", g.QualifiedGoIdent(field.GoIdent), ":")
-	// if it does we return it
+	// if it does we return it, allocating the message first when the wrapper holds none
+	g.P("if m.", field.GoName, " == nil {")
+	g.P("m.", field.GoName, " = &", g.QualifiedGoIdent(field.Message.GoIdent), "{}")
+	g.P("}")
 	g.P("return ", protoreflectPkg.Ident("ValueOfMessage"), "(m.", field.GoName, ".ProtoReflect())")
 	// otherwise we reset the field with the new instance
 	g.P("default:")
